@@ -41,6 +41,49 @@ def lifecycle(v, work, seed, big):
         res = common.absorb(v, res, out, rc, "manager lifecycle")
         nb += res["behaviours"]
         ns += res["steps"]
+        # trace validation: TLC must explain every recorded run of the real manager as a behaviour of Manager.tla
+        # (unlogged steps taken silently), and must reject a corrupted copy (binding self-test)
+        lines = [ln for t in (res.get("traces") or []) for ln in t.splitlines() if ln.strip()]
+        tv = None
+        if lines:
+            silent = "{%s}" % ",".join(str(i + 1) for i, (k, _, n) in enumerate(layout) if k == "cred")
+            tconsts = dict(consts(layout, emit=False), Silent=silent)
+            def validate(ls, tag):
+                tp = vlib.os.path.join(work, "trace.ndjson")
+                with open(tp, "w") as fo:
+                    fo.write("\n".join(ls) + "\n")
+                tr = vlib.tlc(SPEC, "TraceManager", "TraceManager.cfg", tconsts, workers=1, timeout=600, edges=False, extra_files=[tp], keep_out=True,
+                              jvm=["-Dtlc2.tool.queue.IStateQueue=StateDeque"], dump_trace=False)
+                m = vlib.re.search(r'"TRACE-HW", (\d+), (\d+)', tr.out)
+                if not m:
+                    raise vlib.Broken("manager trace validation (%s) produced no verdict:\n%s" % (tag, tr.out[-1500:]))
+                return int(m.group(1)), int(m.group(2)), tr
+            hw, n, tr = validate(lines, "recorded")
+            tv = {"events": n, "accepted_prefix": hw - 1, "states": tr.distinct}
+            if tr.violation:
+                raise vlib.Broken("Manager.tla invariant %s violated along a recorded run" % tr.violation)
+            if hw != n + 1:
+                f = {"events": lines[max(0, hw - 10):hw + 2], "first_rejected_index": hw}
+                rej = json.loads(lines[hw - 1]) if hw - 1 < len(lines) else {}
+                text = "a recorded run of the real service manager is not a behaviour of Manager.tla: event %d (%s) cannot follow" % (hw, lines[hw - 1] if hw - 1 < len(lines) else "?")
+                # C12 speaks about UDP relays after a stop; anything else the specification does not explain is a note
+                udp = {i + 1 for i, (k, _, _) in enumerate(layout) if k == "udp"}
+                if rej.get("e") == "bound" and any(rej["open"][i - 1] > 0 for i in udp):
+                    v.violation("system.manager/trace-rejected-udp-listener-bound", text, f)
+                else:
+                    v.notes.append("system note: " + text)
+            # self-test: swap the result of the first run
+            bad = list(lines)
+            for i, ln in enumerate(bad):
+                e = json.loads(ln)
+                if e.get("e") == "ret":
+                    e["ok"] = not e["ok"]
+                    bad[i] = json.dumps(e)
+                    break
+            bhw, bn, _ = validate(bad, "corrupted")
+            if bhw == bn + 1:
+                raise vlib.Broken("binding self-test: a recorded manager run with Run's result flipped was accepted by TraceManager.tla")
+            tv["corrupted_copy_rejected_at"] = bhw
         # the strong form (nothing at all left bound) fails as coded: partial listeners of a service whose Start failed
         nl = vlib.tlc(SPEC, "MCManager", "MCManager.cfg", consts(layout, extra_inv="NoLeak", emit=False), workers=2, timeout=900, edges=False)
         fixed = vlib.tlc(SPEC, "MCManager", "MCManager.cfg", consts(layout, keep=False, extra_inv="NoLeak", emit=False), workers=2, timeout=900, edges=False)
@@ -49,7 +92,7 @@ def lifecycle(v, work, seed, big):
         cov.append({"services": ["%s%s x%d" % (k, ("/" + s) if s else "", n) for k, s, n in layout], "distinct": r.distinct, "edges": len(g.edges),
                     "behaviours_run_on_real_manager": res["behaviours"], "uncovered_edges": left,
                     "udp_sessions_alive_at_stop": res["counters"].get("udp_sessions_echoed", 0),
-                    "as_coded_NoLeak": nl.violation or "holds", "partial_start_listeners_left_open": res["counters"].get("partial_start_listeners_left_open_as_modelled", 0)})
+                    "trace_validation": tv, "as_coded_NoLeak": nl.violation or "holds", "partial_start_listeners_left_open": res["counters"].get("partial_start_listeners_left_open_as_modelled", 0)})
     v.coverage["system_manager"] = cov
     if any(c["as_coded_NoLeak"] != "holds" for c in cov):
         v.notes.append("system note (outside the listed properties): a relay whose Start fails at its second or later listener is not stopped by "
